@@ -54,7 +54,13 @@ where F: FnOnce() -> String + Send + 'static {
 /// one guarded call: class + panic site
 struct Call { op: String, class: &'static str, site: String }
 
+/// the query that is running right now (read by the watchdog when the case does not come back)
+static CUR_OP: std::sync::Mutex<String> = std::sync::Mutex::new(String::new());
+fn set_cur_op(op: &str) { let mut g = CUR_OP.lock().unwrap_or_else(|e| e.into_inner()); *g = op.split(':').next().unwrap_or(op).split('=').next().unwrap_or(op).to_string(); }
+fn cur_op() -> String { CUR_OP.lock().unwrap_or_else(|e| e.into_inner()).clone() }
+
 fn call<T, E>(op: &str, calls: &mut Vec<Call>, f: impl FnOnce() -> Result<T, E>) -> Option<T> {
+    set_cur_op(op);
     match guarded(f) {
         Ok(Ok(v)) => { calls.push(Call { op: op.to_string(), class: "ok", site: String::new() }); Some(v) }
         Ok(Err(_)) => { calls.push(Call { op: op.to_string(), class: "err", site: String::new() }); None }
@@ -78,6 +84,12 @@ struct Case {
     /// extra tokens of the model request (geometry etc.), without the units
     extra: String,
     trivial: bool,
+    /// false: direct oracle only (no Lean model of this container / file system yet)
+    tie: bool,
+}
+
+fn long_name(fs: &str) -> &'static str {
+    match fs { "pas" => "pascal", "dos" => "dos33", "d13" => "dos32", "pro" => "prodos", "cpm" => "cpm", "fat" => "fat", "imdfat" => "imd-fat", "imdcpm" => "imd-cpm", "cpk" => "cpm-exm1", _ => "other" }
 }
 
 /// a field of the on-disk structures: byte offset in the flat image, width, name, boundary values
@@ -97,13 +109,19 @@ fn dedup(mut v: Vec<u64>, width: usize) -> Vec<u64> {
     v.sort(); v.dedup(); v
 }
 
-/// units of the flat image that are not all zero, as `i:HEX,i:HEX` (`-` if none)
+/// `<units>:<fill> <i:HEX,i:~XX,…>`: the units of the flat image that are not filled with the fill byte (`-` if none;
+/// `~XX` = a unit filled with the byte XX);
+/// the fill byte is the one most uniform units are filled with
 fn sparse_units(bytes: &[u8], unit: usize) -> String {
+    let mut cnt = [0usize; 256];
+    for ch in bytes.chunks(unit) { if ch.iter().all(|x| *x == ch[0]) { cnt[ch[0] as usize] += 1; } }
+    let fill = (0..256).max_by_key(|k| cnt[*k]).unwrap_or(0) as u8;
     let mut parts: Vec<String> = Vec::new();
     for (i, ch) in bytes.chunks(unit).enumerate() {
-        if ch.iter().any(|x| *x != 0) { parts.push(format!("{}:{}", i, hex::encode_upper(ch))); }
+        if ch.iter().all(|x| *x == ch[0]) { if ch[0] != fill { parts.push(format!("{}:~{:02X}", i, ch[0])); } }
+        else { parts.push(format!("{}:{}", i, hex::encode_upper(ch))); }
     }
-    if parts.is_empty() { "-".to_string() } else { parts.join(",") }
+    format!("{}:{} {}", bytes.len() / unit, fill, if parts.is_empty() { "-".to_string() } else { parts.join(",") })
 }
 
 /// from all fields: every single (field, value); then `n_multi` random 2-3 field combinations
@@ -121,7 +139,7 @@ fn cases_from_fields(fs: &'static str, seed: &[u8], unit: usize, names: &[String
     for (i, v) in singles {
         let f = &fields[i];
         let mut b = seed.to_vec(); poke(&mut b, f.off, f.width, v);
-        out.push(Case { fs, bytes: b, unit, desc: format!("{}:={}", f.name, v), names: names.to_vec(), extra: extra.to_string(), trivial: false });
+        out.push(Case { fs, bytes: b, unit, desc: format!("{}:={}", f.name, v), names: names.to_vec(), extra: extra.to_string(), trivial: false, tie: true });
     }
     for _ in 0..n_multi {
         let k = 2 + rng.below(2);
@@ -133,7 +151,7 @@ fn cases_from_fields(fs: &'static str, seed: &[u8], unit: usize, names: &[String
             poke(&mut b, f.off, f.width, v); d.push(format!("{}:={}", f.name, v));
         }
         let trivial = b == seed;
-        out.push(Case { fs, bytes: b, unit, desc: d.join(" "), names: names.to_vec(), extra: extra.to_string(), trivial });
+        out.push(Case { fs, bytes: b, unit, desc: d.join(" "), names: names.to_vec(), extra: extra.to_string(), trivial, tie: true });
     }
     out
 }
@@ -151,7 +169,7 @@ fn pascal_seed() -> Option<(Vec<u8>, Vec<String>)> {
     if disk.write_text("HELLO.TEXT", "HELLO WORLD\nSECOND LINE\n").is_ok() { names.push("HELLO.TEXT".to_string()); }
     let data: Vec<u8> = (0..700u32).map(|i| (i * 7 % 251) as u8).collect();
     if disk.bsave("BIN1.CODE", &data, Some(0x300), None).is_ok() { names.push("BIN1.CODE".to_string()); }
-    let big: Vec<u8> = (0..3000u32).map(|i| (i % 253) as u8).collect();
+    let big: Vec<u8> = vec![0x5a; 3000];
     if disk.bsave("BIG.DATA", &big, Some(0x2000), None).is_ok() { names.push("BIG.DATA".to_string()); }
     if disk.bsave("LAST.DATA", &[1, 2, 3], Some(0x2000), None).is_ok() { names.push("LAST.DATA".to_string()); }
     if names.len() < 3 { return None; }
@@ -201,7 +219,7 @@ fn pascal_cases(rng: &mut Rng, n_single: usize, n_multi: usize) -> Vec<Case> {
         let r = guarded(|| { let img = a2kit::img::dsk_po::PO::from_bytes(&b).ok()?; let mut d = a2kit::fs::pascal::Disk::from_img(Box::new(img)).ok()?; d.catalog_to_vec("/").ok() });
         if r.is_ok() { "1" } else { "0" }
     };
-    let mut out = vec![Case { fs: "pas", bytes: seed.clone(), unit: 512, desc: "seed".into(), names: names.clone(), extra: fixed.into(), trivial: true }];
+    let mut out = vec![Case { fs: "pas", bytes: seed.clone(), unit: 512, desc: "seed".into(), names: names.clone(), extra: fixed.into(), trivial: true, tie: true }];
     // hand-made: a live-looking entry behind num_files (stale slot) with a name the listing cannot convert
     for (what, len, ch) in [("stale-slot-name_len-16", 16u8, b'A'), ("stale-slot-name-byte-ff", 5u8, 0xffu8), ("stale-slot-valid", 5u8, b'A')] {
         let mut b = seed.clone();
@@ -209,7 +227,7 @@ fn pascal_cases(rng: &mut Rng, n_single: usize, n_multi: usize) -> Vec<Case> {
         poke(&mut b, e, 2, 200); poke(&mut b, e + 2, 2, 201); poke(&mut b, e + 4, 2, 5); b[e + 6] = len;
         for k in 0..15 { b[e + 7 + k] = ch; }
         poke(&mut b, e + 22, 2, 512);
-        out.push(Case { fs: "pas", bytes: b, unit: 512, desc: what.into(), names: names.clone(), extra: fixed.into(), trivial: false });
+        out.push(Case { fs: "pas", bytes: b, unit: 512, desc: what.into(), names: names.clone(), extra: fixed.into(), trivial: false, tie: true });
     }
     out.extend(cases_from_fields("pas", &seed, 512, &names, fixed, &fields, rng, n_single, n_multi));
     // second seed: the first unused slot still describes a file (what a delete of the last file leaves behind when
@@ -224,7 +242,7 @@ fn pascal_cases(rng: &mut Rng, n_single: usize, n_multi: usize) -> Vec<Case> {
     let tag = format!("e{}.", nfiles);
     let f2: Vec<Field> = fields.iter().filter(|f| f.name.starts_with(&tag) || f.name == "hdr.num_files" || f.name == "hdr.total").cloned().collect();
     let mut names2 = names.clone(); names2.push("STALE.ONE".to_string());
-    out.push(Case { fs: "pas", bytes: seed2.clone(), unit: 512, desc: "stale-seed".into(), names: names2.clone(), extra: fixed.into(), trivial: false });
+    out.push(Case { fs: "pas", bytes: seed2.clone(), unit: 512, desc: "stale-seed".into(), names: names2.clone(), extra: fixed.into(), trivial: false, tie: true });
     for mut c in cases_from_fields("pas", &seed2, 512, &names2, fixed, &f2, rng, n_single / 4, n_multi / 4) { c.desc = format!("stale-seed {}", c.desc); out.push(c); }
     out
 }
@@ -249,7 +267,8 @@ fn pascal_exercise(bytes: &Vec<u8>, names: &[String]) -> (Vec<Call>, bool) {
 fn read_queries(disk: &mut Box<dyn DiskFS>, names: &[String], calls: &mut Vec<Call>, hier: bool, tied: &dyn Fn(&str) -> bool) {
     if let Some(s) = call("stat", calls, || disk.stat()) { let _ = guarded(|| s.to_json(None)); }
     let cat = call("cat", calls, || disk.catalog_to_vec("/"));
-    call("tree", calls, || disk.tree(true, None));
+    // a file system whose `tree` is not modelled reports it for the oracle only
+    call(if tied("\u{0}tree") { "tree" } else { "xtree" }, calls, || disk.tree(true, None));
     let mut listed: Vec<String> = Vec::new();
     if let Some(g) = call("glob", calls, || disk.glob("*", false)) { listed.extend(g); }
     if hier { if let Some(g) = call("glob2", calls, || disk.glob("*/*", false)) { listed.extend(g); } }
@@ -286,7 +305,7 @@ fn dos_seed(c: usize) -> Option<(Vec<u8>, Vec<String>)> {
     let mut t = a2kit::lang::applesoft::tokenizer::Tokenizer::new();
     if let Ok(tok) = t.tokenize("10 PRINT \"HI\"\n20 END\n", 2049) { if disk.save("PROG", &tok, ItemType::ApplesoftTokens, None).is_ok() { names.push("PROG".to_string()); } }
     // more than 122 data sectors: two track/sector lists
-    let big: Vec<u8> = (0..33000u32).map(|i| (i % 253) as u8).collect();
+    let big: Vec<u8> = vec![0x5a; 33000];
     if disk.bsave("BIG FILE", &big, Some(0x2000), None).is_ok() { names.push("BIG FILE".to_string()); }
     if names.len() < 4 { return None; }
     names.push("NOSUCH".to_string());
@@ -350,7 +369,7 @@ fn dos_cases(c: usize, rng: &mut Rng, n_single: usize, n_multi: usize) -> Vec<Ca
         }
     }
     let extra = format!("{}", c);
-    let mut out = vec![Case { fs, bytes: seed.clone(), unit: 256, desc: "seed".into(), names: names.clone(), extra: extra.clone(), trivial: true }];
+    let mut out = vec![Case { fs, bytes: seed.clone(), unit: 256, desc: "seed".into(), names: names.clone(), extra: extra.clone(), trivial: true, tie: true }];
     // hand-made cycles
     for (what, pokes) in [
         ("catalog-self-loop", vec![(sec(17, c - 1) + 1, 17u8), (sec(17, c - 1) + 2, (c - 1) as u8)]),
@@ -362,7 +381,7 @@ fn dos_cases(c: usize, rng: &mut Rng, n_single: usize, n_multi: usize) -> Vec<Ca
     ] {
         let mut b = seed.clone();
         for (o, x) in pokes { b[o] = x; }
-        out.push(Case { fs, bytes: b, unit: 256, desc: what.into(), names: names.clone(), extra: extra.clone(), trivial: false });
+        out.push(Case { fs, bytes: b, unit: 256, desc: what.into(), names: names.clone(), extra: extra.clone(), trivial: false, tie: true });
     }
     out.extend(cases_from_fields(fs, &seed, 256, &names, &extra, &fields, rng, n_single, n_multi));
     out
@@ -388,6 +407,788 @@ fn dos_exercise(c: usize, bytes: &Vec<u8>, names: &[String]) -> (Vec<Call>, bool
 }
 
 // ------------------------------------------------------------------------------------------------
+// ProDOS
+// ------------------------------------------------------------------------------------------------
+
+fn prodos_seed() -> Option<(Vec<u8>, Vec<String>)> {
+    let img = a2kit::img::dsk_po::PO::create(280);
+    let mut d = a2kit::fs::prodos::Disk::from_img(Box::new(img)).ok()?;
+    d.format("NEW.DISK", true, None).ok()?;
+    let disk: &mut dyn DiskFS = &mut d;
+    let mut names = Vec::new();
+    if disk.write_text("HELLO", "HELLO WORLD\nSECOND LINE\n").is_ok() { names.push("HELLO".to_string()); }
+    let data: Vec<u8> = (0..700u32).map(|i| (i * 7 % 251) as u8).collect();
+    if disk.bsave("BIN1", &data, Some(0x300), None).is_ok() { names.push("BIN1".to_string()); }
+    // three sub-directories in the volume directory, two more one level down, files in them
+    for dname in ["DIR1", "DIR2", "DIR3", "DIR1/SUB1", "DIR1/SUB2"] { if disk.create(dname).is_err() { return None; } }
+    for (pth, txt) in [("DIR1/SUBFILE", "IN A SUBDIRECTORY\n"), ("DIR2/F2", "TWO\n"), ("DIR1/SUB1/DEEP", "DEEP\n")] {
+        if disk.write_text(pth, txt).is_ok() { names.push(pth.to_string()); }
+    }
+    // a sparse tree file: chunks 0 and 300 only
+    if let Ok(mut f) = disk.new_fimg(None, false, "TREE") {
+        f.chunks.insert(0, vec![1; 512]); f.chunks.insert(300, vec![2; 512]);
+        f.fs_type = vec![6]; f.aux = vec![0, 0x20]; f.eof = vec![0, 0x5a, 0x02];
+        if disk.put(&f).is_ok() { names.push("TREE".to_string()); }
+    }
+    if names.len() < 5 { return None; }
+    names.push("NOSUCH".to_string()); names.push("DIR1/NOSUCH".to_string());
+    Some((disk.get_img().to_bytes(), names))
+}
+
+/// directory blocks of the seed: (block, is key block); sub-directory entries: (block of the entry, offset, name)
+fn prodos_dirs(seed: &[u8]) -> (Vec<(usize, bool)>, Vec<(usize, usize)>, Vec<(usize, usize)>) {
+    let mut blocks: Vec<(usize, bool)> = Vec::new();
+    let mut subs: Vec<(usize, usize)> = Vec::new();   // (byte offset of the entry, key pointer)
+    let mut files: Vec<(usize, usize)> = Vec::new();  // (byte offset of the entry, storage type)
+    let mut todo = vec![2usize];
+    let mut seen = std::collections::HashSet::new();
+    while let Some(key) = todo.pop() {
+        let mut b = key; let mut first = true; let mut reps = 0;
+        while b != 0 && b * 512 + 512 <= seed.len() && reps < 20 && seen.insert(b) {
+            reps += 1;
+            blocks.push((b, first));
+            for k in (if first { 1 } else { 0 })..13 {
+                let e = b * 512 + 4 + 39 * k;
+                let st = seed[e] >> 4;
+                if seed[e] == 0 { continue; }
+                let ptr = peek(seed, e + 17, 2) as usize;
+                if st == 0xD { subs.push((e, ptr)); todo.push(ptr); } else if st >= 1 && st <= 3 { files.push((e, st as usize)); }
+            }
+            first = false;
+            b = peek(seed, b * 512 + 2, 2) as usize;
+        }
+    }
+    (blocks, subs, files)
+}
+
+
+/// a chain of `depth` nested directories `A/A/A/…`; then the sub-directory entry of every level is copied into the
+/// next slot under the name `B`: no cycle, no pointer outside the volume, every directory block is a valid one, but
+/// the directory graph is a DAG in which level `k` is reachable along `fan^k` paths
+fn prodos_dag(depth: usize, fan: usize) -> Option<Vec<u8>> {
+    let img = a2kit::img::dsk_po::PO::create(280);
+    let mut d = a2kit::fs::prodos::Disk::from_img(Box::new(img)).ok()?;
+    d.format("V", true, None).ok()?;
+    let disk: &mut dyn DiskFS = &mut d;
+    let mut path = String::new();
+    for k in 0..depth {
+        if k > 0 { path.push('/'); }
+        path.push('A');
+        disk.create(&path).ok()?;
+    }
+    disk.write_text(&format!("{}/F", path), "LEAF\n").ok()?;
+    let mut b = disk.get_img().to_bytes();
+    // walk the chain: the entry `A` is the first entry of every key block (slot 2 = byte 4+39)
+    let mut key = 2usize;
+    for _ in 0..depth {
+        let e = key * 512 + 4 + 39;
+        if b[e] >> 4 != 0xD { return None; }
+        let next = peek(&b, e + 17, 2) as usize;
+        for j in 1..fan {
+            let e2 = e + 39 * j;
+            if b[e2] != 0 { break; }
+            let src: Vec<u8> = b[e..e + 39].to_vec();
+            b[e2..e2 + 39].copy_from_slice(&src);
+            b[e2 + 1] = b'A' + j as u8;
+        }
+        key = next;
+    }
+    Some(b)
+}
+
+fn prodos_cases(rng: &mut Rng, n_single: usize, n_multi: usize) -> Vec<Case> {
+    let Some((seed, names)) = prodos_seed() else { return vec![] };
+    let (blocks, subs, files) = prodos_dirs(&seed);
+    let total = 280u64;
+    let ptr16 = |extra: &[u64]| -> Vec<u64> { let mut v = vec![0, 1, 2, 3, 5, 6, 7, 8, total - 1, total, total + 1, 0x7fff, 0x8000, 0xffff]; v.extend_from_slice(extra); dedup(v, 2) };
+    let dirblocks: Vec<u64> = blocks.iter().map(|b| b.0 as u64).collect();
+    let mut fields: Vec<Field> = Vec::new();
+    for (b, key) in &blocks {
+        let o = b * 512;
+        fields.push(Field { off: o, width: 2, name: format!("b{}.prev", b), vals: ptr16(&dirblocks) });
+        fields.push(Field { off: o + 2, width: 2, name: format!("b{}.next", b), vals: ptr16(&dirblocks) });
+        if *key {
+            let h = o + 4;
+            fields.push(Field { off: h, width: 1, name: format!("b{}.hdr.stor_len", b), vals: vec![0, 0x0f, 0x10, 0xd3, 0xe0, 0xe3, 0xef, 0xf0, 0xf1, 0xf8, 0xff] });
+            for k in [1usize, 2, 15] { fields.push(Field { off: h + k, width: 1, name: format!("b{}.hdr.name[{}]", b, k - 1), vals: vec![0, 0x20, 0x2e, 0x30, 0x41, 0x61, 0x7f, 0x80, 0xff] }); }
+            fields.push(Field { off: h + 31, width: 1, name: format!("b{}.hdr.entry_len", b), vals: vec![0, 1, 0x26, 0x27, 0x28, 0xff] });
+            fields.push(Field { off: h + 32, width: 1, name: format!("b{}.hdr.entries_per_block", b), vals: vec![0, 1, 12, 13, 14, 255] });
+            fields.push(Field { off: h + 33, width: 2, name: format!("b{}.hdr.file_count", b), vals: vec![0, 1, 12, 13, 0xffff] });
+            fields.push(Field { off: h + 35, width: 2, name: format!("b{}.hdr.bitmap_or_parent", b), vals: ptr16(&dirblocks) });
+            fields.push(Field { off: h + 37, width: 2, name: format!("b{}.hdr.total_or_parent_entry", b), vals: ptr16(&[279, 281, 0x270d, 0x2700, 0x270e]) });
+        }
+    }
+    for (e, ptr) in &subs {
+        fields.push(Field { off: *e, width: 1, name: format!("sub@{}.stor_len", e), vals: vec![0, 0x10, 0x14, 0x24, 0x34, 0x44, 0x54, 0xc4, 0xd0, 0xdf, 0xe4, 0xf4] });
+        let mut v = dirblocks.clone(); v.push(*ptr as u64 + 1);
+        fields.push(Field { off: e + 17, width: 2, name: format!("sub@{}.key_ptr", e), vals: ptr16(&v) });
+        fields.push(Field { off: e + 37, width: 2, name: format!("sub@{}.header_ptr", e), vals: ptr16(&dirblocks) });
+    }
+    let mut idx_blocks: Vec<usize> = Vec::new();
+    for (e, st) in &files {
+        let key = peek(&seed, e + 17, 2) as usize;
+        fields.push(Field { off: *e, width: 1, name: format!("file@{}.stor_len", e), vals: vec![0, 0x10, 0x1f, 0x20, 0x25, 0x30, 0x35, 0x40, 0x45, 0x55, 0xc5, 0xd5, 0xe5, 0xf5] });
+        fields.push(Field { off: e + 16, width: 1, name: format!("file@{}.type", e), vals: vec![0, 1, 4, 6, 0x0f, 0xfc, 0xff] });
+        fields.push(Field { off: e + 17, width: 2, name: format!("file@{}.key_ptr", e), vals: ptr16(&[key as u64, 2]) });
+        fields.push(Field { off: e + 19, width: 2, name: format!("file@{}.blocks_used", e), vals: vec![0, 1, 0xffff] });
+        fields.push(Field { off: e + 21, width: 3, name: format!("file@{}.eof", e), vals: vec![0, 1, 511, 512, 513, 0x1ffff, 0x20000, 0x20001, 0xffffff] });
+        fields.push(Field { off: e + 24, width: 4, name: format!("file@{}.created", e), vals: vec![0, 0xffffffff, 0x00000001, 0xff3fffff] });
+        fields.push(Field { off: e + 33, width: 4, name: format!("file@{}.modified", e), vals: vec![0, 0xffffffff, 0x183c01ff] });
+        fields.push(Field { off: e + 30, width: 1, name: format!("file@{}.access", e), vals: vec![0, 1, 0xc3, 0xff] });
+        if *st >= 2 && key < 280 { idx_blocks.push(key); }
+        if *st == 3 && key < 280 { for i in 0..2 { let p = seed[key * 512 + i] as usize + 256 * seed[key * 512 + 256 + i] as usize; if p > 0 && p < 280 { idx_blocks.push(p); } } }
+    }
+    for ib in &idx_blocks {
+        for i in [0usize, 1, 2, 44, 255] {
+            // an index pointer is split: low byte at i, high byte at 256+i
+            fields.push(Field { off: ib * 512 + i, width: 1, name: format!("idx{}.lo[{}]", ib, i), vals: vec![0, 1, 2, *ib as u64, 0x17, 0x18, 0x19, 0xff] });
+            fields.push(Field { off: ib * 512 + 256 + i, width: 1, name: format!("idx{}.hi[{}]", ib, i), vals: vec![0, 1, 2, 0x80, 0xff] });
+        }
+    }
+    let mut out = vec![Case { fs: "pro", bytes: seed.clone(), unit: 512, desc: "seed".into(), names: names.clone(), extra: String::new(), trivial: true, tie: true }];
+    // several sub-directory entries pointing at the same directory (a cycle that can be entered more than once),
+    // k = 2..4 entries, targets: the volume key block, the parent, each other, a sibling, an entry block, themselves
+    let mut targets: Vec<(String, u64)> = vec![("vol-key".into(), 2), ("vol-entry-block".into(), 3)];
+    for (i, (_, p)) in subs.iter().enumerate() { targets.push((format!("sub{}-key", i), *p as u64)); }
+    for k in 2..=subs.len().min(5) {
+        for (tn, tv) in &targets {
+            for start in 0..=(subs.len() - k) {
+                let mut b = seed.clone();
+                for (e, _) in subs.iter().skip(start).take(k) { poke(&mut b, e + 17, 2, *tv); }
+                out.push(Case { fs: "pro", bytes: b, unit: 512, desc: format!("{}-subdirs[{}..]->{}", k, start, tn), names: names.clone(), extra: String::new(), trivial: false, tie: true });
+            }
+        }
+    }
+    // every sub-directory entry points at its own parent key block; chain cycles of two blocks
+    {
+        let mut b = seed.clone();
+        for (e, _) in &subs { let parent = (e / 512) as u64; let pk = if parent == 3 || parent == 4 || parent == 5 { 2 } else { parent }; poke(&mut b, e + 17, 2, pk); }
+        out.push(Case { fs: "pro", bytes: b, unit: 512, desc: "all-subdirs->own-parent".into(), names: names.clone(), extra: String::new(), trivial: false, tie: true });
+        let mut b = seed.clone(); poke(&mut b, 3 * 512 + 2, 2, 2);
+        out.push(Case { fs: "pro", bytes: b, unit: 512, desc: "block3.next->2".into(), names: names.clone(), extra: String::new(), trivial: false, tie: true });
+        let mut b = seed.clone(); poke(&mut b, 3 * 512 + 2, 2, 3);
+        out.push(Case { fs: "pro", bytes: b, unit: 512, desc: "block3.next->3".into(), names: names.clone(), extra: String::new(), trivial: false, tie: true });
+    }
+    let cs = cases_from_fields("pro", &seed, 512, &names, "", &fields, rng, n_single, n_multi);
+    out.extend(cs);
+    // directory DAGs: total work of the recursive walks vs the number of directories
+    for (depth, fan) in [(4usize, 2usize), (10, 2), (16, 2), (20, 2), (24, 2), (28, 2), (8, 4), (12, 4)] {
+        if let Some(b) = prodos_dag(depth, fan) {
+            out.push(Case { fs: "pro", bytes: b, unit: 512, desc: format!("dag depth={} fan={}", depth, fan), names: vec!["A/A/A/A/F".to_string()], extra: String::new(), trivial: false, tie: true });
+        }
+    }
+    out
+}
+
+fn prodos_exercise(bytes: &Vec<u8>, names: &[String]) -> (Vec<Call>, bool) {
+    let mut calls = Vec::new();
+    let mut mounted = false;
+    let Ok(img) = a2kit::img::dsk_po::PO::from_bytes(bytes) else { return (calls, false) };
+    let mut bimg: Box<dyn DiskImage> = Box::new(img);
+    if let Some(t) = call("id", &mut calls, || Ok::<bool, ()>(a2kit::fs::prodos::Disk::test_img(&mut bimg))) {
+        mounted = t;
+        if let Some(c) = calls.last_mut() { c.op = format!("id={}", if t { "T" } else { "F" }); }
+    }
+    let Some(d) = call("mount", &mut calls, || a2kit::fs::prodos::Disk::from_img(bimg)) else { return (calls, mounted) };
+    let mut disk: Box<dyn DiskFS> = Box::new(d);
+    read_queries(&mut disk, names, &mut calls, true, &|_| true);
+    (calls, mounted)
+}
+
+
+// ------------------------------------------------------------------------------------------------
+// FAT (12-bit, 360K IMG)
+// ------------------------------------------------------------------------------------------------
+
+struct FatGeo { bps: usize, spc: usize, res: usize, nfats: usize, fatsz: usize, root_ents: usize, root_sec: usize, data_sec: usize, clusters: usize }
+fn fat_geo(b: &[u8]) -> FatGeo {
+    let bps = peek(b, 11, 2) as usize; let spc = b[13] as usize; let res = peek(b, 14, 2) as usize; let nfats = b[16] as usize;
+    let root_ents = peek(b, 17, 2) as usize; let tot = peek(b, 19, 2) as usize; let fatsz = peek(b, 22, 2) as usize;
+    let root_sec = res + nfats * fatsz; let data_sec = root_sec + (root_ents * 32 + bps - 1) / bps;
+    FatGeo { bps, spc, res, nfats, fatsz, root_ents, root_sec, data_sec, clusters: (tot - data_sec) / spc.max(1) }
+}
+fn fat12_get(b: &[u8], g: &FatGeo, n: usize) -> usize {
+    let o = g.res * g.bps + n * 3 / 2;
+    if n % 2 == 0 { b[o] as usize | ((b[o + 1] as usize & 0x0f) << 8) } else { (b[o] as usize >> 4) | ((b[o + 1] as usize) << 4) }
+}
+/// FAT entry `n` := `val` in every copy of the FAT
+fn fat12_set(b: &mut [u8], g: &FatGeo, n: usize, val: usize) {
+    for k in 0..g.nfats {
+        let o = (g.res + k * g.fatsz) * g.bps + n * 3 / 2;
+        if o + 1 >= b.len() { continue; }
+        if n % 2 == 0 { b[o] = (val & 0xff) as u8; b[o + 1] = (b[o + 1] & 0xf0) | ((val >> 8) & 0x0f) as u8; }
+        else { b[o] = (b[o] & 0x0f) | ((val << 4) & 0xf0) as u8; b[o + 1] = (val >> 4) as u8; }
+    }
+}
+fn fat_clus_off(g: &FatGeo, n: usize) -> usize { (g.data_sec + (n - 2) * g.spc) * g.bps }
+
+fn fat_seed() -> Option<(Vec<u8>, Vec<String>)> {
+    let kind = a2kit::img::DiskKind::D525(a2kit::img::names::IBM_DSDD_9);
+    let bs = a2kit::bios::bpb::BootSector::create(&kind).ok()?;
+    let img = a2kit::img::dsk_img::Img::create(kind);
+    let mut d = a2kit::fs::fat::Disk::from_img(Box::new(img), Some(bs)).ok()?;
+    d.format("VOLNAME", None).ok()?;
+    let disk: &mut dyn DiskFS = &mut d;
+    let mut names = Vec::new();
+    if disk.write_text("HELLO.TXT", "HELLO WORLD\r\n").is_ok() { names.push("HELLO.TXT".to_string()); }
+    let data: Vec<u8> = (0..3000u32).map(|i| (i * 7 % 251) as u8).collect();
+    if disk.bsave("BIN1.COM", &data, None, None).is_ok() { names.push("BIN1.COM".to_string()); }
+    for dname in ["DIR1", "DIR2", "DIR3", "DIR1/SUB1"] { disk.create(dname).ok()?; }
+    for (pth, txt) in [("DIR1/SUB.TXT", "IN A SUBDIRECTORY\r\n"), ("DIR2/F2.TXT", "TWO\r\n"), ("DIR1/SUB1/DEEP.TXT", "DEEP\r\n")] {
+        if disk.write_text(pth, txt).is_ok() { names.push(pth.to_string()); }
+    }
+    if names.len() < 4 { return None; }
+    names.push("NOSUCH.TXT".to_string()); names.push("DIR1/NOSUCH".to_string());
+    Some((disk.get_img().to_bytes(), names))
+}
+
+/// directory regions of the seed: (byte offset of the region, number of 32-byte slots, "root"/cluster)
+fn fat_dirs(seed: &[u8], g: &FatGeo) -> Vec<(usize, usize, usize)> {
+    let mut v = vec![(g.root_sec * g.bps, g.root_ents, 0usize)];
+    let mut i = 0;
+    while i < v.len() {
+        let (off, n, _) = v[i];
+        for k in 0..n {
+            let e = off + 32 * k;
+            if e + 32 > seed.len() || seed[e] == 0 { break; }
+            if seed[e] == 0xe5 || seed[e] == b'.' { continue; }
+            if seed[e + 11] & 0x10 != 0 {
+                let c = peek(seed, e + 26, 2) as usize;
+                if c >= 2 && c < g.clusters + 2 && !v.iter().any(|x| x.2 == c) { v.push((fat_clus_off(g, c), g.spc * g.bps / 32, c)); }
+            }
+        }
+        i += 1;
+    }
+    v
+}
+
+/// `depth` nested directories `A\A\A…`; in every level the entry `A` is copied to the next slot as `B`
+fn fat_dag(depth: usize, fan: usize) -> Option<Vec<u8>> {
+    let kind = a2kit::img::DiskKind::D525(a2kit::img::names::IBM_DSDD_9);
+    let bs = a2kit::bios::bpb::BootSector::create(&kind).ok()?;
+    let img = a2kit::img::dsk_img::Img::create(kind);
+    let mut d = a2kit::fs::fat::Disk::from_img(Box::new(img), Some(bs)).ok()?;
+    d.format("V", None).ok()?;
+    let disk: &mut dyn DiskFS = &mut d;
+    let mut path = String::new();
+    for k in 0..depth { if k > 0 { path.push('/'); } path.push('A'); disk.create(&path).ok()?; }
+    disk.write_text(&format!("{}/F.TXT", path), "LEAF\r\n").ok()?;
+    let mut b = disk.get_img().to_bytes();
+    let g = fat_geo(&b);
+    // root: the label is slot 0, `A` slot 1; sub-directories: `.`, `..`, then `A`
+    let mut off = g.root_sec * g.bps; let mut slots = g.root_ents;
+    for _ in 0..depth {
+        let mut found = None;
+        for k in 0..slots { let e = off + 32 * k; if b[e] == b'A' && b[e + 11] & 0x10 != 0 { found = Some(e); break; } }
+        let e = found?;
+        let next = peek(&b, e + 26, 2) as usize;
+        for j in 1..fan {
+            let mut free = None;
+            for k in 0..slots { let e2 = off + 32 * k; if b[e2] == 0 { free = Some(e2); break; } }
+            let Some(e2) = free else { break };
+            let src: Vec<u8> = b[e..e + 32].to_vec();
+            b[e2..e2 + 32].copy_from_slice(&src);
+            b[e2] = b'A' + j as u8;
+        }
+        off = fat_clus_off(&g, next); slots = g.spc * g.bps / 32;
+    }
+    Some(b)
+}
+
+fn fat_cases(rng: &mut Rng, n_single: usize, n_multi: usize) -> Vec<Case> {
+    let Some((seed, names)) = fat_seed() else { return vec![] };
+    let g = fat_geo(&seed);
+    let dirs = fat_dirs(&seed, &g);
+    let nclus = g.clusters as u64;
+    let ents = (g.fatsz * g.bps * 2 / 3) as u64;
+    let clus16 = |extra: &[u64]| -> Vec<u64> { let mut v = vec![0, 1, 2, 3, nclus, nclus + 1, nclus + 2, nclus + 3, ents - 1, ents, ents + 1, 0xff0, 0xff6, 0xff7, 0xff8, 0xfff, 0x1000, 0x7fff, 0xffff]; v.extend_from_slice(extra); dedup(v, 2) };
+    let mut fields: Vec<Field> = Vec::new();
+    // BPB
+    fields.push(Field { off: 11, width: 2, name: "bpb.bytes_per_sec".into(), vals: vec![0, 128, 256, 512, 1024, 4096, 0xffff] });
+    fields.push(Field { off: 13, width: 1, name: "bpb.sec_per_clus".into(), vals: vec![0, 1, 2, 3, 4, 64, 128, 255] });
+    fields.push(Field { off: 14, width: 2, name: "bpb.reserved".into(), vals: vec![0, 1, 2, 3, 719, 720, 0xffff] });
+    fields.push(Field { off: 16, width: 1, name: "bpb.num_fats".into(), vals: vec![0, 1, 2, 3, 255] });
+    fields.push(Field { off: 17, width: 2, name: "bpb.root_entries".into(), vals: vec![0, 1, 16, 111, 112, 113, 224, 512, 0x7000, 0xffff] });
+    fields.push(Field { off: 19, width: 2, name: "bpb.total16".into(), vals: vec![0, 1, 12, 13, 719, 720, 721, 1440, 0xffff] });
+    fields.push(Field { off: 22, width: 2, name: "bpb.fat_size".into(), vals: vec![0, 1, 2, 3, 4, 0xffff] });
+    fields.push(Field { off: 24, width: 2, name: "bpb.sec_per_trk".into(), vals: vec![0, 1, 8, 9, 10, 0xffff] });
+    fields.push(Field { off: 26, width: 2, name: "bpb.heads".into(), vals: vec![0, 1, 2, 3, 0xffff] });
+    fields.push(Field { off: 32, width: 4, name: "bpb.total32".into(), vals: vec![0, 720, 0xffffffff] });
+    // directory entries in use (and the first free slot) of every directory
+    let mut used_clusters: Vec<usize> = Vec::new();
+    for (doff, n, dc) in &dirs {
+        let mut seen_free = false;
+        for k in 0..*n {
+            let e = doff + 32 * k;
+            if e + 32 > seed.len() { break; }
+            let free = seed[e] == 0;
+            if free { if seen_free { break; } seen_free = true; }
+            let tag = format!("d{}.e{}", dc, k);
+            let c1 = peek(&seed, e + 26, 2);
+            if c1 >= 2 && !free { used_clusters.push(c1 as usize); }
+            fields.push(Field { off: e, width: 1, name: format!("{}.name0", tag), vals: vec![0, 5, 0x20, 0x2e, 0x41, 0x7f, 0x80, 0xe5, 0xff] });
+            for j in [1usize, 7, 8, 10] { fields.push(Field { off: e + j, width: 1, name: format!("{}.name[{}]", tag, j), vals: vec![0, 0x20, 0x2e, 0x2f, 0x41, 0x61, 0x7f, 0x80, 0xff] }); }
+            fields.push(Field { off: e + 11, width: 1, name: format!("{}.attr", tag), vals: vec![0, 1, 2, 4, 8, 0x0f, 0x10, 0x18, 0x20, 0x30, 0x40, 0xff] });
+            fields.push(Field { off: e + 13, width: 1, name: format!("{}.tenths", tag), vals: vec![0, 199, 200, 255] });
+            for (o, nm) in [(14usize, "ctime"), (16, "cdate"), (18, "adate"), (22, "wtime"), (24, "wdate")] {
+                fields.push(Field { off: e + o, width: 2, name: format!("{}.{}", tag, nm), vals: vec![0, 1, 0x0021, 0x01e0, 0xbf7d, 0xc000, 0xffff] });
+            }
+            fields.push(Field { off: e + 20, width: 2, name: format!("{}.cluster_hi", tag), vals: vec![0, 1, 0xffff] });
+            let dcs: Vec<u64> = dirs.iter().map(|x| x.2 as u64).collect();
+            let mut ex = dcs.clone(); ex.push(c1 + 1); ex.push(c1.wrapping_sub(1));
+            fields.push(Field { off: e + 26, width: 2, name: format!("{}.cluster1", tag), vals: clus16(&ex) });
+            fields.push(Field { off: e + 28, width: 4, name: format!("{}.size", tag), vals: vec![0, 1, 511, 512, 513, 1024, 1025, 0x7fffffff, 0x80000000, 0xffffffff] });
+        }
+    }
+    let extra = String::new();
+    let mut out = vec![Case { fs: "fat", bytes: seed.clone(), unit: 512, desc: "seed".into(), names: names.clone(), extra: extra.clone(), trivial: true, tie: false }];
+    // FAT entries of every cluster in use: links incl. self loops, back links, out of range, reserved values
+    used_clusters.sort(); used_clusters.dedup();
+    let mut chain: Vec<usize> = Vec::new();
+    for c in &used_clusters { let mut x = *c; let mut k = 0; while x >= 2 && x < g.clusters + 2 && k < 20 && !chain.contains(&x) { chain.push(x); x = fat12_get(&seed, &g, x); k += 1; } }
+    for c in chain.iter().take(24) {
+        let mut vals: Vec<usize> = vec![0, 1, 2, *c, c.saturating_sub(1), c + 1, g.clusters + 1, g.clusters + 2, ents as usize - 1, ents as usize, 0xff0, 0xff6, 0xff7, 0xff8, 0xfff];
+        vals.extend(used_clusters.iter().take(3));
+        vals.sort(); vals.dedup();
+        for v in vals {
+            if v == fat12_get(&seed, &g, *c) { continue; }
+            let mut b = seed.clone(); fat12_set(&mut b, &g, *c, v);
+            out.push(Case { fs: "fat", bytes: b, unit: 512, desc: format!("fat[{}]:={}", c, v), names: names.clone(), extra: extra.clone(), trivial: false, tie: false });
+        }
+    }
+    // FAT entries 0 and 1 (media byte, flags), and the copies disagreeing
+    for (n, v) in [(0usize, 0usize), (0, 0xfff), (1, 0), (1, 0xff7)] { let mut b = seed.clone(); fat12_set(&mut b, &g, n, v); out.push(Case { fs: "fat", bytes: b, unit: 512, desc: format!("fat[{}]:={}", n, v), names: names.clone(), extra: extra.clone(), trivial: false, tie: false }); }
+    // several sub-directory entries pointing at the same directory cluster (cycles that can be entered more than once)
+    let subs: Vec<usize> = { let mut v = Vec::new(); for (doff, n, _) in &dirs { for k in 0..*n { let e = doff + 32 * k; if e + 32 > seed.len() || seed[e] == 0 { break; } if seed[e] != 0xe5 && seed[e] != b'.' && seed[e + 11] & 0x10 != 0 { v.push(e); } } } v };
+    let mut targets: Vec<(String, u64)> = vec![("root(0)".into(), 0)];
+    for e in &subs { targets.push((format!("dir@{}", e), peek(&seed, e + 26, 2))); }
+    for k in 2..=subs.len().min(4) {
+        for (tn, tv) in &targets {
+            for start in 0..=(subs.len() - k) {
+                let mut b = seed.clone();
+                for e in subs.iter().skip(start).take(k) { poke(&mut b, e + 26, 2, *tv); }
+                out.push(Case { fs: "fat", bytes: b, unit: 512, desc: format!("{}-subdirs[{}..]->{}", k, start, tn), names: names.clone(), extra: extra.clone(), trivial: false, tie: false });
+            }
+        }
+    }
+    let mut cs = cases_from_fields("fat", &seed, 512, &names, &extra, &fields, rng, n_single, n_multi);
+    for c in cs.iter_mut() { c.tie = false; }
+    out.extend(cs);
+    for (depth, fan) in [(4usize, 2usize), (10, 2), (16, 2), (20, 2), (24, 2), (8, 4), (12, 4)] {
+        if let Some(b) = fat_dag(depth, fan) {
+            out.push(Case { fs: "fat", bytes: b, unit: 512, desc: format!("dag depth={} fan={}", depth, fan), names: vec!["A/A/A/A/F.TXT".to_string()], extra: extra.clone(), trivial: false, tie: false });
+        }
+    }
+    out
+}
+
+fn fat_exercise(bytes: &Vec<u8>, names: &[String]) -> (Vec<Call>, bool) {
+    let mut calls = Vec::new();
+    let mut mounted = false;
+    let Ok(img) = a2kit::img::dsk_img::Img::from_bytes(bytes) else { return (calls, false) };
+    let mut bimg: Box<dyn DiskImage> = Box::new(img);
+    if let Some(t) = call("id", &mut calls, || Ok::<bool, ()>(a2kit::fs::fat::Disk::test_img(&mut bimg))) {
+        mounted = t;
+        if let Some(c) = calls.last_mut() { c.op = format!("id={}", if t { "T" } else { "F" }); }
+    }
+    let Some(d) = call("mount", &mut calls, || a2kit::fs::fat::Disk::from_img(bimg, None)) else { return (calls, mounted) };
+    let mut disk: Box<dyn DiskFS> = Box::new(d);
+    read_queries(&mut disk, names, &mut calls, true, &|_| true);
+    (calls, mounted)
+}
+
+// ------------------------------------------------------------------------------------------------
+// CP/M (Apple II 5.25 inch, DOS-ordered image)
+// ------------------------------------------------------------------------------------------------
+
+fn cpm_seed() -> Option<(Vec<u8>, Vec<String>)> {
+    let kind = a2kit::img::names::A2_DOS33_KIND;
+    let img = a2kit::img::dsk_do::DO::create(35, 16);
+    let mut d = a2kit::fs::cpm::Disk::from_img(Box::new(img), a2kit::bios::dpb::DiskParameterBlock::create(&kind), [2, 2, 3]).ok()?;
+    d.format("", None).ok()?;
+    let disk: &mut dyn DiskFS = &mut d;
+    let mut names = Vec::new();
+    if disk.write_text("HELLO.TXT", "HELLO WORLD\r\n").is_ok() { names.push("HELLO.TXT".to_string()); }
+    let data: Vec<u8> = (0..3000u32).map(|i| (i * 7 % 251) as u8).collect();
+    if disk.bsave("BIN1.COM", &data, None, None).is_ok() { names.push("BIN1.COM".to_string()); }
+    // more than one extent (16K per extent with 1K blocks)
+    let big: Vec<u8> = vec![0x5a; 40000];
+    if disk.bsave("BIG.DAT", &big, None, None).is_ok() { names.push("BIG.DAT".to_string()); }
+    if disk.bsave("1:USER1.DAT", &data, None, None).is_ok() { names.push("1:USER1.DAT".to_string()); }
+    if names.len() < 3 { return None; }
+    names.push("NOSUCH.TXT".to_string());
+    Some((disk.get_img().to_bytes(), names))
+}
+
+
+/// probes of the real code: (repair `c12fs-cpm-free-blocks-underflow` present, repair `c12fs-cpm-overlapping-extents` present)
+fn cpm_probes() -> (bool, bool) {
+    static P: std::sync::OnceLock<(bool, bool)> = std::sync::OnceLock::new();
+    *P.get_or_init(|| {
+        // free blocks: a directory with 16 extents full of pointers on a 128 block volume
+        let free_ok = (|| -> Option<bool> {
+            let kind = a2kit::img::names::A2_DOS33_KIND;
+            let img = a2kit::img::dsk_do::DO::create(35, 16);
+            let mut d = a2kit::fs::cpm::Disk::from_img(Box::new(img), a2kit::bios::dpb::DiskParameterBlock::create(&kind), [2, 2, 3]).ok()?;
+            d.format("", None).ok()?;
+            let mut dir = vec![0xe5u8; 1024];
+            for j in 0..16 { let e = 32 * j; dir[e] = 0; for k in 1..12 { dir[e + k] = b'A'; } dir[e + 12] = j as u8; dir[e + 13] = 0; dir[e + 14] = 0; dir[e + 15] = 128; for q in 0..16 { dir[e + 16 + q] = 2 + q as u8; } }
+            d.get_img().write_block(a2kit::fs::Block::CPM((0, 3, 3)), &dir).ok()?;
+            Some(guarded(|| d.stat().is_ok()).is_ok())
+        })().unwrap_or(true);
+        let overlap_ok = (|| -> Option<bool> {
+            let (seed, _) = cpk_seed()?;
+            let dpb = a2kit::bios::dpb::DSDD_525_OFF1;
+            let mut img = a2kit::img::imd::Imd::from_bytes(&seed).ok()?;
+            let dir0 = img.read_block(a2kit::fs::Block::CPM((0, dpb.bsh, dpb.off))).ok()?;
+            let bigs: Vec<usize> = (0..dir0.len() / 32).filter(|k| dir0[32 * k] < 32 && &dir0[32 * k + 1..32 * k + 12] == b"BIG     DAT").collect();
+            if bigs.len() < 2 { return None; }
+            let b = cpk_poke(&seed, &[(bigs[0], 12, 0), (bigs[1], 12, 1)])?;
+            let img = a2kit::img::imd::Imd::from_bytes(&b).ok()?;
+            let mut d = a2kit::fs::cpm::Disk::from_img(Box::new(img), dpb.clone(), [3, 1, 0]).ok()?;
+            Some(guarded(|| d.get("BIG.DAT").is_ok()).is_ok())
+        })().unwrap_or(true);
+        (free_ok, overlap_ok)
+    })
+}
+
+fn cpm_cases(rng: &mut Rng, n_single: usize, n_multi: usize) -> Vec<Case> {
+    let Some((seed, names)) = cpm_seed() else { return vec![] };
+    // flat offsets of the 48 directory entries: write a numbered pattern through the image layer and look where it lands
+    let dir_map: Vec<usize> = {
+        let mut probe = a2kit::img::dsk_do::DO::create(35, 16);
+        let mut v = vec![usize::MAX; 64];
+        for blk in 0..2usize {
+            let mut dat = vec![0u8; 1024];
+            for k in 0..32 { for j in 0..32 { dat[32 * k + j] = (blk * 32 + k + 1) as u8; } }
+            let _ = probe.write_block(a2kit::fs::Block::CPM((blk, 3, 3)), &dat);
+        }
+        let flat = probe.to_bytes();
+        let mut o = 0;
+        while o + 32 <= flat.len() { let t = flat[o] as usize; if t > 0 && flat[o..o + 32].iter().all(|x| *x as usize == t) && v[t - 1] == usize::MAX { v[t - 1] = o; } o += 32; }
+        v.into_iter().take(48).collect()
+    };
+    if dir_map.iter().any(|x| *x == usize::MAX) { return vec![]; }
+    // the extents in use, and the first unused entries behind them
+    let exts: Vec<usize> = dir_map.iter().cloned().filter(|o| seed[*o] < 32).collect();
+    let frees: Vec<usize> = dir_map.iter().cloned().filter(|o| seed[*o] == 0xe5).collect();
+    if exts.is_empty() || frees.is_empty() { return vec![]; }
+    let free = frees[0];
+    let mut fields: Vec<Field> = Vec::new();
+    let mut all = exts.clone(); all.push(free);
+    for (i, e) in all.iter().enumerate() {
+        let tag = format!("x{}", i);
+        fields.push(Field { off: *e, width: 1, name: format!("{}.user", tag), vals: vec![0, 1, 15, 16, 31, 32, 33, 0x21, 0x7f, 0x80, 0xe5, 0xff] });
+        for j in [1usize, 8, 9, 11] { fields.push(Field { off: e + j, width: 1, name: format!("{}.name[{}]", tag, j - 1), vals: vec![0, 0x1f, 0x20, 0x2a, 0x2e, 0x3a, 0x3f, 0x41, 0x61, 0x7f, 0x80, 0xc1, 0xff] }); }
+        fields.push(Field { off: e + 12, width: 1, name: format!("{}.ex", tag), vals: vec![0, 1, 2, 30, 31, 32, 0x80, 0xff] });
+        fields.push(Field { off: e + 13, width: 1, name: format!("{}.s1", tag), vals: vec![0, 1, 0x80, 0xff] });
+        fields.push(Field { off: e + 14, width: 1, name: format!("{}.s2", tag), vals: vec![0, 1, 2, 0x3f, 0x40, 0x80, 0xff] });
+        fields.push(Field { off: e + 15, width: 1, name: format!("{}.rc", tag), vals: vec![0, 1, 7, 8, 127, 128, 129, 255] });
+        for j in [0usize, 1, 2, 7, 15] { fields.push(Field { off: e + 16 + j, width: 1, name: format!("{}.blk[{}]", tag, j), vals: vec![0, 1, 2, 3, 126, 127, 128, 139, 140, 255] }); }
+    }
+    let (pf, po) = cpm_probes();
+    let extra = cpm_extra(&a2kit::bios::dpb::A2_525, pf, po);
+    let mut out = vec![Case { fs: "cpm", bytes: seed.clone(), unit: 256, desc: "seed".into(), names: names.clone(), extra: extra.clone(), trivial: true, tie: true }];
+    // duplicate extents (same user, name, extent number): copy one extent over the free slot, with variations
+    for (what, mods) in [("dup-extent", vec![]), ("dup-extent-ex+1", vec![(12usize, 1u8)]), ("dup-extent-ex32", vec![(12, 32)]), ("dup-extent-s2", vec![(14, 1)]), ("dup-extent-user31", vec![(0, 31)])] {
+        let mut b = seed.clone();
+        let src: Vec<u8> = b[exts[0]..exts[0] + 32].to_vec();
+        b[free..free + 32].copy_from_slice(&src);
+        for (o, v) in mods { b[free + o] = v; }
+        out.push(Case { fs: "cpm", bytes: b, unit: 256, desc: what.into(), names: names.clone(), extra: extra.clone(), trivial: false, tie: true });
+    }
+    // every extent of the big file with the same extent number; all block pointers the same; all zero
+    for (what, f) in [("big-all-ex0", 0usize), ("big-all-blocks-2", 1), ("big-rc-255", 2)] {
+        let mut b = seed.clone();
+        for e in &exts { if &b[e + 1..e + 12] == b"BIG     DAT" { match f { 0 => b[e + 12] = 0, 1 => { for j in 0..16 { b[e + 16 + j] = 2; } } _ => b[e + 15] = 255 } } }
+        out.push(Case { fs: "cpm", bytes: b, unit: 256, desc: what.into(), names: names.clone(), extra: extra.clone(), trivial: false, tie: true });
+    }
+    // more block pointers in the directory than the volume has blocks: k extents of one file, 16 pointers each
+    for k in [4usize, 7, 8, 9, 16, 40] {
+        let mut b = seed.clone();
+        let src: Vec<u8> = b[exts[0]..exts[0] + 32].to_vec();
+        for j in 0..k {
+            let Some(e) = frees.get(j).cloned() else { break };
+            b[e..e + 32].copy_from_slice(&src);
+            b[e + 12] = (j + 1) as u8 % 32; b[e + 15] = 128;
+            for q in 0..16 { b[e + 16 + q] = 2 + ((j * 16 + q) % 100) as u8; }
+        }
+        out.push(Case { fs: "cpm", bytes: b, unit: 256, desc: format!("{}-extra-extents-full-of-pointers", k), names: names.clone(), extra: extra.clone(), trivial: false, tie: true });
+    }
+    let mut cs = cases_from_fields("cpm", &seed, 256, &names, &extra, &fields, rng, n_single, n_multi);
+    out.extend(cs);
+    out
+}
+
+fn cpm_exercise(bytes: &Vec<u8>, names: &[String]) -> (Vec<Call>, bool) {
+    let mut calls = Vec::new();
+    let mut mounted = false;
+    let Ok(img) = a2kit::img::dsk_do::DO::from_bytes(bytes) else { return (calls, false) };
+    let mut bimg: Box<dyn DiskImage> = Box::new(img);
+    let dpb = a2kit::bios::dpb::A2_525;
+    if let Some(t) = call("id", &mut calls, || Ok::<bool, ()>(a2kit::fs::cpm::Disk::test_img(&mut bimg, &dpb, [3, 1, 0]))) {
+        mounted = t;
+        if let Some(c) = calls.last_mut() { c.op = format!("id={}", if t { "T" } else { "F" }); }
+    }
+    let Some(d) = call("mount", &mut calls, || a2kit::fs::cpm::Disk::from_img(bimg, dpb.clone(), [3, 1, 0])) else { return (calls, mounted) };
+    let mut disk: Box<dyn DiskFS> = Box::new(d);
+    read_queries(&mut disk, names, &mut calls, false, &|n| n != "\u{0}tree");
+    (calls, mounted)
+}
+
+
+// ------------------------------------------------------------------------------------------------
+// CP/M with an extent mask (Kaypro 4 on IMD, EXM = 1): the directory is changed through the image layer
+// ------------------------------------------------------------------------------------------------
+
+fn cpk_seed() -> Option<(Vec<u8>, Vec<String>)> {
+    let kind = a2kit::img::names::KAYPRO4_KIND;
+    let img = a2kit::img::imd::Imd::create(kind);
+    let mut d = a2kit::fs::cpm::Disk::from_img(Box::new(img), a2kit::bios::dpb::DiskParameterBlock::create(&kind), [2, 2, 3]).ok()?;
+    d.format("", None).ok()?;
+    let disk: &mut dyn DiskFS = &mut d;
+    let mut names = Vec::new();
+    if disk.write_text("HELLO.TXT", "HELLO WORLD\r\n").is_ok() { names.push("HELLO.TXT".to_string()); }
+    // three directory entries with EXM = 1 (32K per entry)
+    let big: Vec<u8> = vec![0x5a; 70000];
+    if disk.bsave("BIG.DAT", &big, None, None).is_ok() { names.push("BIG.DAT".to_string()); }
+    let data: Vec<u8> = (0..3000u32).map(|i| (i * 7 % 251) as u8).collect();
+    if disk.bsave("BIN1.COM", &data, None, None).is_ok() { names.push("BIN1.COM".to_string()); }
+    if names.len() < 3 { return None; }
+    names.push("NOSUCH.TXT".to_string());
+    Some((disk.get_img().to_bytes(), names))
+}
+
+/// byte `off` of directory entry `ent` := `val`, written through the image layer
+fn cpk_poke(seed: &[u8], pokes: &[(usize, usize, u8)]) -> Option<Vec<u8>> {
+    let dpb = a2kit::bios::dpb::DSDD_525_OFF1;
+    let mut img = a2kit::img::imd::Imd::from_bytes(seed).ok()?;
+    let bs = dpb.block_size();
+    for (ent, off, val) in pokes {
+        let blk = ent * 32 / bs;
+        let mut dat = img.read_block(a2kit::fs::Block::CPM((blk, dpb.bsh, dpb.off))).ok()?;
+        dat[ent * 32 % bs + off] = *val;
+        img.write_block(a2kit::fs::Block::CPM((blk, dpb.bsh, dpb.off)), &dat).ok()?;
+    }
+    Some(img.to_bytes())
+}
+
+fn cpk_cases(rng: &mut Rng, n_single: usize, n_multi: usize) -> Vec<Case> {
+    let Some((seed, names)) = cpk_seed() else { return vec![] };
+    let dpb = a2kit::bios::dpb::DSDD_525_OFF1;
+    let (pf, po) = cpm_probes();
+    let xt = cpm_extra(&dpb, pf, po);
+    let Ok(mut img) = a2kit::img::imd::Imd::from_bytes(&seed) else { return vec![] };
+    let Ok(dir0) = img.read_block(a2kit::fs::Block::CPM((0, dpb.bsh, dpb.off))) else { return vec![] };
+    let used: Vec<usize> = (0..dir0.len() / 32).filter(|k| dir0[32 * k] < 32).collect();
+    let Some(free) = (0..dir0.len() / 32).find(|k| dir0[32 * k] == 0xe5) else { return vec![] };
+    let mut out = vec![Case { fs: "cpk", bytes: seed.clone(), unit: 2048, desc: "seed".into(), names: names.clone(), extra: xt.clone(), trivial: true, tie: true }];
+    // field table: (entry, offset, values)
+    let mut tab: Vec<(usize, usize, String, Vec<u8>)> = Vec::new();
+    let mut all = used.clone(); all.push(free);
+    for e in &all {
+        tab.push((*e, 0, format!("x{}.user", e), vec![0, 1, 15, 16, 31, 32, 33, 0x21, 0x80, 0xe5, 0xff]));
+        for j in [1usize, 8, 9, 11] { tab.push((*e, j, format!("x{}.name[{}]", e, j - 1), vec![0, 0x20, 0x2a, 0x3a, 0x3f, 0x41, 0x61, 0x7f, 0x80, 0xc1, 0xff])); }
+        tab.push((*e, 12, format!("x{}.ex", e), vec![0, 1, 2, 3, 4, 5, 30, 31, 32, 0x80, 0xff]));
+        tab.push((*e, 13, format!("x{}.s1", e), vec![0, 1, 0x80, 0xff]));
+        tab.push((*e, 14, format!("x{}.s2", e), vec![0, 1, 2, 0x3f, 0x40, 0x80, 0xff]));
+        tab.push((*e, 15, format!("x{}.rc", e), vec![0, 1, 127, 128, 129, 255]));
+        for j in [0usize, 1, 7, 15] { tab.push((*e, 16 + j, format!("x{}.blk[{}]", e, j), vec![0, 1, 2, 3, 195, 196, 197, 255])); }
+    }
+    let mut singles: Vec<(usize, u8)> = Vec::new();
+    for (i, t) in tab.iter().enumerate() { for v in &t.3 { if dir0[t.0 * 32 + t.1] != *v { singles.push((i, *v)); } } }
+    if singles.len() > n_single { for i in 0..n_single { let j = i + rng.below(singles.len() - i); singles.swap(i, j); } singles.truncate(n_single); singles.sort(); }
+    for (i, v) in singles {
+        let t = &tab[i];
+        if let Some(b) = cpk_poke(&seed, &[(t.0, t.1, v)]) { out.push(Case { fs: "cpk", bytes: b, unit: 2048, desc: format!("{}:={}", t.2, v), names: names.clone(), extra: xt.clone(), trivial: false, tie: true }); }
+    }
+    for _ in 0..n_multi {
+        let k = 2 + rng.below(2);
+        let mut pk = Vec::new(); let mut d = Vec::new();
+        for _ in 0..k { let t = rng.pick(&tab).clone(); let v = *rng.pick(&t.3); pk.push((t.0, t.1, v)); d.push(format!("{}:={}", t.2, v)); }
+        if let Some(b) = cpk_poke(&seed, &pk) { let trivial = b == seed; out.push(Case { fs: "cpk", bytes: b, unit: 2048, desc: d.join(" "), names: names.clone(), extra: xt.clone(), trivial, tie: true }); }
+    }
+    // extent numbers of the big file: every pair of (first entry, second entry) values 0..5
+    let bigs: Vec<usize> = used.iter().cloned().filter(|k| &dir0[32 * k + 1..32 * k + 12] == b"BIG     DAT").collect();
+    if bigs.len() >= 2 {
+        for a in 0..6u8 { for b2 in 0..6u8 {
+            if let Some(b) = cpk_poke(&seed, &[(bigs[0], 12, a), (bigs[1], 12, b2)]) {
+                out.push(Case { fs: "cpk", bytes: b, unit: 2048, desc: format!("big.ex0:={} big.ex1:={}", a, b2), names: names.clone(), extra: xt.clone(), trivial: false, tie: true });
+            }
+        } }
+    }
+    out
+}
+
+fn cpk_exercise(bytes: &Vec<u8>, names: &[String]) -> (Vec<Call>, bool) {
+    let mut calls = Vec::new();
+    let mut mounted = false;
+    let Ok(img) = a2kit::img::imd::Imd::from_bytes(bytes) else { return (calls, false) };
+    let mut bimg: Box<dyn DiskImage> = Box::new(img);
+    let dpb = a2kit::bios::dpb::DSDD_525_OFF1;
+    if let Some(t) = call("id", &mut calls, || Ok::<bool, ()>(a2kit::fs::cpm::Disk::test_img(&mut bimg, &dpb, [3, 1, 0]))) {
+        mounted = t;
+        if let Some(c) = calls.last_mut() { c.op = format!("id={}", if t { "T" } else { "F" }); }
+    }
+    let Some(d) = call("mount", &mut calls, || a2kit::fs::cpm::Disk::from_img(bimg, dpb.clone(), [3, 1, 0])) else { return (calls, mounted) };
+    let mut disk: Box<dyn DiskFS> = Box::new(d);
+    read_queries(&mut disk, names, &mut calls, false, &|n| n != "\u{0}tree");
+    (calls, mounted)
+}
+
+/// the allocation blocks `0..=dsm` as the image layer returns them (the units of the CP/M model), and the request tail
+fn cpm_model_units(c: &Case) -> Option<(usize, Vec<u8>)> {
+    let (mut img, dpb): (Box<dyn DiskImage>, a2kit::bios::dpb::DiskParameterBlock) = match c.fs {
+        "cpm" => (Box::new(a2kit::img::dsk_do::DO::from_bytes(&c.bytes).ok()?), a2kit::bios::dpb::A2_525),
+        "cpk" => (Box::new(a2kit::img::imd::Imd::from_bytes(&c.bytes).ok()?), a2kit::bios::dpb::DSDD_525_OFF1),
+        _ => return None,
+    };
+    let bs = dpb.block_size();
+    let mut flat = Vec::with_capacity((dpb.dsm as usize + 1) * bs);
+    for b in 0..=(dpb.dsm as usize) {
+        let dat = img.read_block(a2kit::fs::Block::CPM((b, dpb.bsh, dpb.off))).ok()?;
+        if dat.len() != bs { return None; }
+        flat.extend_from_slice(&dat);
+    }
+    Some((bs, flat))
+}
+fn cpm_extra(dpb: &a2kit::bios::dpb::DiskParameterBlock, fix_free: bool, fix_overlap: bool) -> String {
+    format!("{} {} {} {} {} {} {} {}", dpb.bsh, dpb.exm, dpb.dsm, dpb.drm, dpb.al0, dpb.al1, if fix_free { 1 } else { 0 }, if fix_overlap { 1 } else { 0 })
+}
+
+// ------------------------------------------------------------------------------------------------
+// IMD containers with mixed sector record types around a valid FAT / CP/M volume (oracle only)
+// ------------------------------------------------------------------------------------------------
+
+fn imd_rec_len(typ: u8, shift: u8) -> Option<usize> {
+    match typ { 0 => Some(1), 1 | 3 | 5 | 7 => Some(1 + (128usize << shift)), 2 | 4 | 6 | 8 => Some(2), _ => None }
+}
+
+/// one track of an IMD file: (offset of the track header, cyl, head, sector ids, shift, offsets of the records)
+struct ImdTrack { cyl: u8, head: u8, shift: u8, recs: Vec<(usize, usize)> }
+
+fn imd_parse(imd: &[u8]) -> Option<(usize, Vec<ImdTrack>)> {
+    let mut ptr = imd.iter().position(|b| *b == 0x1a)? + 1;
+    let start = ptr;
+    let mut tracks = Vec::new();
+    while ptr + 5 <= imd.len() {
+        let (c, h, nsec, shift) = (imd[ptr + 1], imd[ptr + 2], imd[ptr + 3] as usize, imd[ptr + 4]);
+        let mut hdr = 5 + nsec;
+        if h & 0x80 > 0 { hdr += nsec; }
+        if h & 0x40 > 0 { hdr += nsec; }
+        ptr += hdr;
+        let mut recs = Vec::new();
+        for _ in 0..nsec {
+            if ptr >= imd.len() { return None; }
+            let len = imd_rec_len(imd[ptr], shift)?;
+            recs.push((ptr, len));
+            ptr += len;
+        }
+        tracks.push(ImdTrack { cyl: c, head: h & 0x3f, shift, recs });
+    }
+    Some((start, tracks))
+}
+
+/// re-encode: `f(track index, position in the sector map, record bytes)` → replacement record (None = keep)
+fn imd_reencode(imd: &[u8], tracks: &[ImdTrack], f: &dyn Fn(usize, usize, &[u8]) -> Option<Vec<u8>>) -> Vec<u8> {
+    let mut out = Vec::with_capacity(imd.len());
+    let mut last = 0usize;
+    for (ti, t) in tracks.iter().enumerate() {
+        for (pos, (off, len)) in t.recs.iter().enumerate() {
+            if let Some(rep) = f(ti, pos, &imd[*off..*off + *len]) {
+                out.extend_from_slice(&imd[last..*off]);
+                out.extend_from_slice(&rep);
+                last = *off + *len;
+            }
+        }
+    }
+    out.extend_from_slice(&imd[last..]);
+    out
+}
+
+fn imd_seed(fs: &str) -> Option<Vec<u8>> {
+    let big: Vec<u8> = (0..30000u32).map(|i| (i % 253) as u8).collect();
+    let small: Vec<u8> = (0..1500u32).map(|i| (i * 3 % 251) as u8).collect();
+    if fs == "fat" {
+        let kind = a2kit::img::DiskKind::D525(a2kit::img::names::IBM_DSDD_9);
+        let bs = a2kit::bios::bpb::BootSector::create(&kind).ok()?;
+        let img = a2kit::img::imd::Imd::create(kind);
+        let mut d = a2kit::fs::fat::Disk::from_img(Box::new(img), Some(bs)).ok()?;
+        d.format("VOLNAME", None).ok()?;
+        let disk: &mut dyn DiskFS = &mut d;
+        disk.write_text("HELLO.TXT", "HELLO WORLD\r\n").ok()?;
+        disk.bsave("BIG.DAT", &big, None, None).ok()?;
+        disk.bsave("SMALL.DAT", &small, None, None).ok()?;
+        disk.create("DIR1").ok()?;
+        disk.bsave("DIR1/SUB.DAT", &small, None, None).ok()?;
+        disk.bsave("LAST.DAT", &small, None, None).ok()?;
+        Some(disk.get_img().to_bytes())
+    } else {
+        let kind = a2kit::img::names::OSBORNE1_DD_KIND;
+        let img = a2kit::img::imd::Imd::create(kind);
+        let mut d = a2kit::fs::cpm::Disk::from_img(Box::new(img), a2kit::bios::dpb::DiskParameterBlock::create(&kind), [2, 2, 3]).ok()?;
+        d.format("", None).ok()?;
+        let disk: &mut dyn DiskFS = &mut d;
+        disk.write_text("HELLO.TXT", "HELLO WORLD\r\n").ok()?;
+        disk.bsave("BIG.DAT", &big, None, None).ok()?;
+        disk.bsave("SMALL.DAT", &small, None, None).ok()?;
+        disk.bsave("LAST.DAT", &small, None, None).ok()?;
+        Some(disk.get_img().to_bytes())
+    }
+}
+
+fn imd_cases(rng: &mut Rng, thorough: bool) -> Vec<Case> {
+    let mut out = Vec::new();
+    for (fs, tag) in [("fat", "imdfat"), ("cpm", "imdcpm")] {
+        let Some(seed) = imd_seed(fs) else { continue };
+        let Some((_, tracks)) = imd_parse(&seed) else { continue };
+        let tag: &'static str = tag;
+        out.push(Case { fs: tag, bytes: seed.clone(), unit: 512, desc: "seed".into(), names: vec![], extra: String::new(), trivial: true, tie: false });
+        // tracks that hold data (not uniform) come first; plus a few others
+        let busy: Vec<usize> = (0..tracks.len()).filter(|ti| tracks[*ti].recs.iter().any(|(o, l)| *l > 2 && seed[*o + 1..*o + *l].iter().any(|b| *b != seed[*o + 1]))).collect();
+        let mut chosen: Vec<usize> = busy.iter().cloned().take(if thorough { 40 } else { 12 }).collect();
+        for _ in 0..(if thorough { 20 } else { 4 }) { chosen.push(rng.below(tracks.len())); }
+        chosen.sort(); chosen.dedup();
+        let unavailable = |_: &[u8]| Some(vec![0u8]);
+        for ti in chosen {
+            let n = tracks[ti].recs.len();
+            let what = format!("cyl{}h{}", tracks[ti].cyl, tracks[ti].head);
+            // (a) the first k records unavailable (the rest of the track must still be readable)
+            for k in 1..=3usize.min(n) {
+                let b = imd_reencode(&seed, &tracks, &|t, p, r| if t == ti && p < k { unavailable(r) } else { None });
+                out.push(Case { fs: tag, bytes: b, unit: 512, desc: format!("{} first-{}-unavailable", what, k), names: vec![], extra: String::new(), trivial: false, tie: false });
+            }
+            // (b) every other record unavailable; the last one unavailable; all but the last unavailable
+            let b = imd_reencode(&seed, &tracks, &|t, p, r| if t == ti && p % 2 == 0 { unavailable(r) } else { None });
+            out.push(Case { fs: tag, bytes: b, unit: 512, desc: format!("{} even-unavailable", what), names: vec![], extra: String::new(), trivial: false, tie: false });
+            let b = imd_reencode(&seed, &tracks, &|t, p, r| if t == ti && p + 1 == n { unavailable(r) } else { None });
+            out.push(Case { fs: tag, bytes: b, unit: 512, desc: format!("{} last-unavailable", what), names: vec![], extra: String::new(), trivial: false, tie: false });
+            let b = imd_reencode(&seed, &tracks, &|t, p, r| if t == ti && p + 1 < n { unavailable(r) } else { None });
+            out.push(Case { fs: tag, bytes: b, unit: 512, desc: format!("{} all-but-last-unavailable", what), names: vec![], extra: String::new(), trivial: false, tie: false });
+            // (c) uniform sectors compressed (type 2), data sectors flagged deleted / error (types 3, 5, 7 keep their length)
+            let b = imd_reencode(&seed, &tracks, &|t, _, r| if t == ti && r.len() > 2 && r[1..].iter().all(|x| *x == r[1]) { Some(vec![2, r[1]]) } else { None });
+            out.push(Case { fs: tag, bytes: b, unit: 512, desc: format!("{} uniform-compressed", what), names: vec![], extra: String::new(), trivial: false, tie: false });
+            for ty in [3u8, 5, 7] {
+                let b = imd_reencode(&seed, &tracks, &|t, p, r| if t == ti && p % 3 == 1 && r.len() > 2 { let mut v = r.to_vec(); v[0] = ty; Some(v) } else { None });
+                out.push(Case { fs: tag, bytes: b, unit: 512, desc: format!("{} type-{}", what, ty), names: vec![], extra: String::new(), trivial: false, tie: false });
+            }
+            // (d) mixed: unavailable + compressed + flagged on one track
+            let b = imd_reencode(&seed, &tracks, &|t, p, r| if t != ti { None } else if p == 0 || p == 2 { unavailable(r) } else if p == 1 && r.len() > 2 { Some(vec![4, r[1]]) } else if p == 3 && r.len() > 2 { let mut v = r.to_vec(); v[0] = 5; Some(v) } else { None });
+            out.push(Case { fs: tag, bytes: b, unit: 512, desc: format!("{} mixed", what), names: vec![], extra: String::new(), trivial: false, tie: false });
+        }
+    }
+    out
+}
+
+/// identify + mount through the generic entry point, then the read-only queries
+fn generic_exercise(bytes: &Vec<u8>, ext: &str) -> (Vec<Call>, bool) {
+    let mut calls = Vec::new();
+    let Some(mut disk) = call("mount", &mut calls, || a2kit::create_fs_from_bytestream(bytes, Some(ext))) else { return (calls, false) };
+    read_queries(&mut disk, &[], &mut calls, true, &|_| false);
+    (calls, true)
+}
+
+// ------------------------------------------------------------------------------------------------
 // run
 // ------------------------------------------------------------------------------------------------
 
@@ -397,7 +1198,6 @@ struct Run<'a> {
     cur_path: String,
     start: usize,
     idx: usize,
-    hangs: usize,
 }
 
 impl<'a> Run<'a> {
@@ -416,6 +1216,11 @@ fn exercise(c: &Case) -> (Vec<Call>, bool) {
         "pas" => pascal_exercise(&c.bytes, &c.names),
         "dos" => dos_exercise(16, &c.bytes, &c.names),
         "d13" => dos_exercise(13, &c.bytes, &c.names),
+        "pro" => prodos_exercise(&c.bytes, &c.names),
+        "fat" => fat_exercise(&c.bytes, &c.names),
+        "cpm" => cpm_exercise(&c.bytes, &c.names),
+        "cpk" => cpk_exercise(&c.bytes, &c.names),
+        "imdfat" | "imdcpm" => generic_exercise(&c.bytes, "imd"),
         _ => (Vec::new(), false),
     }
 }
@@ -429,20 +1234,35 @@ fn all_cases(ctx: &Ctx) -> Vec<Case> {
     v.extend(dos_cases(16, &mut g, ctx.n(500, 8000), ctx.n(400, 8000)));
     let mut g = rng0.fork(3);
     v.extend(dos_cases(13, &mut g, ctx.n(150, 4000), ctx.n(150, 4000)));
+    let mut g = rng0.fork(4);
+    v.extend(prodos_cases(&mut g, ctx.n(600, 8000), ctx.n(500, 8000)));
+    let mut g = rng0.fork(5);
+    v.extend(imd_cases(&mut g, ctx.tier_thorough));
+    let mut g = rng0.fork(6);
+    v.extend(fat_cases(&mut g, ctx.n(500, 8000), ctx.n(400, 8000)));
+    let mut g = rng0.fork(7);
+    v.extend(cpm_cases(&mut g, ctx.n(400, 6000), ctx.n(300, 6000)));
+    let mut g = rng0.fork(8);
+    v.extend(cpk_cases(&mut g, ctx.n(150, 3000), ctx.n(150, 3000)));
     v
 }
 
+/// The cases run in this child process; a case that does not come back within the time limit is recorded as
+/// `hang:<fs>/<query>` and the child exits (its runaway thread cannot be stopped otherwise); the parent starts
+/// the next child behind that case.
 fn child(ctx: &mut Ctx, start: usize, rec_path: &str) {
     let f = std::fs::File::create(rec_path).expect("create record file");
     let cases = all_cases(ctx);
-    let mut r = Run { ctx, w: std::io::LineWriter::new(f), cur_path: format!("{}.cur", rec_path), start, idx: 0, hangs: 0 };
+    let mut r = Run { ctx, w: std::io::LineWriter::new(f), cur_path: format!("{}.cur", rec_path), start, idx: 0 };
+    let skip: Vec<String> = std::env::var("C12FS_SKIP").unwrap_or_default().split(',').map(|x| x.to_string()).collect();
     for c in cases {
         let Some(idx) = r.claim() else { continue };
-        let front = format!("fs/{}", c.fs);
-        if r.hangs >= 3 { r.line(format!("D\tskipped-after-hangs:{}\t1", front)); continue; }
+        let front = format!("fs/{}", long_name(c.fs));
+        if skip.iter().any(|x| x == c.fs) { r.line(format!("D\tskipped-after-hangs:{}\t1", long_name(c.fs))); continue; }
         r.mark(idx, &front, &c.desc);
         let c2 = c.clone();
-        let o = watched(20000, move || {
+        set_cur_op("start");
+        let o = watched(8000, move || {
             let (calls, mounted) = exercise(&c2);
             let mut s = format!("{}", if mounted { "M" } else { "U" });
             for k in &calls { s += &format!("\x1f{}\x1e{}\x1e{}", k.op, k.class, k.site); }
@@ -450,9 +1270,12 @@ fn child(ctx: &mut Ctx, start: usize, rec_path: &str) {
         });
         match o {
             Outc::Hang => {
-                r.hangs += 1;
-                r.line(format!("O\tFAIL\t{}\thang:{}\tidx={} front={} input={}", ORACLE, front, idx, front, c.desc));
+                let op = cur_op();
+                r.line(format!("O\tFAIL\t{}\thang:{}/{}\tidx={} front={} op={} no answer within 8 s input={}", ORACLE, long_name(c.fs), op, idx, front, op, c.desc));
                 r.line(format!("D\t{}:hang\t1", c.fs));
+                r.line(format!("C\t{:016X}\t1", fnv(&[c.fs.as_bytes(), c.desc.as_bytes()].concat())));
+                r.line(format!("X\t{}\t{}", idx, c.fs));
+                std::process::exit(0);
             }
             Outc::Done(s) => {
                 let mut parts = s.split('\x1f');
@@ -463,21 +1286,27 @@ fn child(ctx: &mut Ctx, start: usize, rec_path: &str) {
                 for p in parts {
                     let f: Vec<&str> = p.split('\x1e').collect();
                     if f.len() < 3 { continue; }
-                    if !f[0].starts_with("xget:") { toks.push(format!("{}:{}", f[0], f[1])); }
+                    if !f[0].starts_with("xget:") && f[0] != "xtree" { toks.push(format!("{}:{}", f[0], f[1])); }
                     if f[1] == "panic" { any_panic = true; if fail.is_none() { fail = Some((f[0].to_string(), f[2].to_string())); } }
                 }
-                // the tie: same classes from the model
-                let got: Vec<String> = toks.iter().filter(|t| t.starts_with("get:")).map(|t| t[4..].split(':').next().unwrap_or("").to_string()).collect();
-                let req = format!("c12fs {} {} {} {}{}", if c.fs == "d13" { "dos" } else { c.fs }, c.bytes.len() / c.unit, sparse_units(&c.bytes, c.unit),
-                    if got.is_empty() { "-".to_string() } else { got.join(",") },
-                    if c.extra.is_empty() { String::new() } else { format!(" {}", c.extra) });
-                r.line(format!("Q\t{}\t{}", req, toks.join(" ")));
+                let munits = if c.tie && (c.fs == "cpm" || c.fs == "cpk") { cpm_model_units(&c) } else { None };
+                if c.tie && (munits.is_some() || !(c.fs == "cpm" || c.fs == "cpk")) {
+                    // the tie: same classes from the model
+                    let got: Vec<String> = toks.iter().filter(|t| t.starts_with("get:")).map(|t| t[4..].split(':').next().unwrap_or("").to_string()).collect();
+                    let (mbytes, munit): (&[u8], usize) = match &munits { Some((u, f)) => (&f[..], *u), None => (&c.bytes[..], c.unit) };
+                    let req = format!("c12fs {} {} {}{}", match c.fs { "d13" => "dos", "cpk" => "cpm", x => x }, sparse_units(mbytes, munit),
+                        if got.is_empty() { "-".to_string() } else { got.join(",") },
+                        if c.extra.is_empty() { String::new() } else { format!(" {}", c.extra) });
+                    r.line(format!("Q\t{}\t{}", req, toks.join(" ")));
+                }
                 r.line(format!("D\t{}:{}{}\t1", c.fs, if mounted { "mounted" } else { "not-mounted" }, if any_panic { ":panic" } else { "" }));
                 match (&fail, mounted) {
                     (Some((op, site)), true) => r.line(format!("O\tFAIL\t{}\t{}\tidx={} front={} op={} at={} input={}", ORACLE, panic_sig(site), idx, front, op, site, c.desc)),
                     _ => r.line(format!("O\tPASS\t{}\t-\tidx={} {}", ORACLE, idx, front)),
                 }
-                if idx < 3 { r.line(format!("S\t{} {}: {}", c.fs, c.desc, toks.join(" "))); }
+                let traced = match std::env::var("C12FS_TRACE") { Ok(t) => !t.is_empty() && c.desc.contains(&t), Err(_) => false };
+                if c.trivial { r.line(format!("S\t{} {}: {}", long_name(c.fs), c.desc, toks.join(" "))); }
+                if traced { r.line(format!("D\ttrace {} {}: {}\t1", long_name(c.fs), c.desc, toks.join(" "))); }
             }
         }
         r.line(format!("C\t{:016X}\t{}", fnv(&[c.fs.as_bytes(), c.desc.as_bytes()].concat()), if c.trivial { 0 } else { 1 }));
@@ -496,7 +1325,8 @@ pub fn run(ctx: &mut Ctx) {
     let tmp = std::env::temp_dir().join(format!("c12fs-{}-{}", std::process::id(), ctx.seed));
     let rec = format!("{}.rec", tmp.display());
     let mut start = 0usize;
-    let mut aborts = 0;
+    let mut restarts = 0;
+    let mut hangs: std::collections::BTreeMap<String, usize> = Default::default();
     let mut dist: std::collections::BTreeMap<String, u64> = Default::default();
     loop {
         let _ = std::fs::remove_file(format!("{}.cur", rec));
@@ -504,10 +1334,14 @@ pub fn run(ctx: &mut Ctx) {
         cmd.arg("c12fs").arg(tier).arg(ctx.seed.to_string()).arg(format!("{}.ctxout", tmp.display()));
         if let Some(k) = ctx.out.only { cmd.arg("--only").arg(k.to_string()); }
         cmd.env("C12FS_CHILD", format!("{}:{}", start, rec)).stdout(std::process::Stdio::null());
+        // a file system whose queries hung twice is not exercised further in this run (each hang costs the time limit)
+        cmd.env("C12FS_SKIP", hangs.iter().filter(|(_, n)| **n >= 2).map(|(k, _)| k.clone()).collect::<Vec<_>>().join(","));
         match std::fs::File::create(format!("{}.err", tmp.display())) { Ok(f) => { cmd.stderr(f); } Err(_) => { cmd.stderr(std::process::Stdio::null()); } }
         die_with_parent(&mut cmd);
         let status = cmd.status();
         let mut ended = false;
+        let mut hang_exit: Option<usize> = None;
+        let mut hang_fs = String::new();
         if let Ok(text) = std::fs::read(&rec) {
             for line in String::from_utf8_lossy(&text).lines() {
                 let p: Vec<&str> = line.split('\t').collect();
@@ -517,6 +1351,7 @@ pub fn run(ctx: &mut Ctx) {
                     "C" if p.len() >= 3 => ctx.out.case(p[1].as_bytes(), p[2] == "1"),
                     "S" if p.len() >= 2 => ctx.out.sample(p[1]),
                     "D" if p.len() >= 3 => { *dist.entry(p[1].to_string()).or_insert(0) += p[2].parse::<u64>().unwrap_or(0); }
+                    "X" if p.len() >= 3 => { hang_exit = p[1].parse().ok(); hang_fs = p[2].to_string(); }
                     "END" => ended = true,
                     _ => {}
                 }
@@ -524,7 +1359,15 @@ pub fn run(ctx: &mut Ctx) {
         }
         let ok = matches!(&status, Ok(st) if st.success());
         if ok && ended { break; }
-        aborts += 1;
+        restarts += 1;
+        if let Some(i) = hang_exit {
+            // the child left after a hang: go on behind that case (a front that hangs 12 times is not worth more restarts)
+            *hangs.entry(hang_fs.clone()).or_insert(0) += 1;
+            if ctx.out.only.is_some() || restarts >= 40 || i < start { break; }
+            start = i + 1;
+            continue;
+        }
+        // the child died: which case was it running?
         let cur = std::fs::read_to_string(format!("{}.cur", rec)).unwrap_or_default();
         let p: Vec<&str> = cur.split('\t').collect();
         let errtxt = std::fs::read_to_string(format!("{}.err", tmp.display())).unwrap_or_default();
@@ -533,7 +1376,7 @@ pub fn run(ctx: &mut Ctx) {
         if p.len() >= 3 {
             let idx: usize = p[0].parse().unwrap_or(usize::MAX - 1);
             ctx.out.oracle(false, ORACLE, &format!("abort:{}", p[1]), &format!("idx={} front={} process died ({}) input={}", idx, p[1], how, p[2]));
-            if ctx.out.only.is_some() || aborts >= 40 || idx < start { break; }
+            if ctx.out.only.is_some() || restarts >= 40 || idx < start { break; }
             start = idx + 1;
         } else {
             ctx.out.oracle(false, ORACLE, "abort:harness", &format!("idx=0 child process died ({}) before its first case", how));
